@@ -128,14 +128,25 @@ func init() {
 		}
 		return out
 	}
+	// engine self-test: the summary of strconv.ParseInt/ParseUint (base 10, symbolic characters) against
+	// an independent definition, every byte string of the length, validated natively
+	selfParse := func(maxLen int64) []Inst {
+		var out []Inst
+		for n := int64(0); n <= maxLen; n++ {
+			for sg := int64(0); sg < 2; sg++ {
+				out = append(out, Inst{Pkg: "knx", Fn: "HarnessSelfTestParse", Args: []int64{n, sg}, ForceNative: true, Note: "summary of strconv.ParseInt/ParseUint vs an independent definition"})
+			}
+		}
+		return out
+	}
 	reg(&Spec{
 		ID:       "C18",
-		Quick:    func(l *loaded) []Inst { return c18(5, false) },
-		Thorough: func(l *loaded) []Inst { return c18(8, true) },
-		Covers:   []string{"C18.rt.end", "C18.ctor.end", "C18.parse.accept", "C18.parse.reject"},
+		Quick:    func(l *loaded) []Inst { return append(c18(5, false), selfParse(5)...) },
+		Thorough: func(l *loaded) []Inst { return append(c18(8, true), selfParse(7)...) },
+		Covers:   []string{"C18.rt.end", "C18.ctor.end", "C18.parse.accept", "C18.parse.reject", "self.parse.end"},
 		Bounds:   "round trip: all 65535 non-zero addresses of both kinds (one symbolic 16-bit variable); constructors: all argument values; acceptance: every byte string of length 0..5 (quick) / 0..8 (thorough) fully symbolic against an independent recogniser of the documented language, plus grammar-shaped texts of 1..4 components with 1..5 symbolic digits each, optional signs and symbolic separator bytes",
 		Outside:  "fully symbolic strings longer than 8 bytes; components longer than 5 digits; strings with non-ASCII digits are covered only as arbitrary bytes",
-		Assume:   []string{"strings.Split and strconv.Atoi are executed from their real SSA; internal/bytealg.IndexByteString/CountString and strconv.syntaxError/rangeError are engine built-ins", "fmt.Sprintf(\"%d...\") is a built-in decimal formatter validated by native replay"},
+		Assume:   []string{"strings.Split and strconv.Atoi are executed from their real SSA; strconv.ParseInt/ParseUint in base 10 on strings with symbolic characters are summarised (sign, all-digits, range: three branches instead of several per character) - the summary is checked against an independent definition for every byte string of length 0..5 (7) and validated natively; internal/bytealg.IndexByteString/CountString and strconv.syntaxError/rangeError are engine built-ins", "fmt.Sprintf(\"%d...\") is a built-in decimal formatter validated by native replay"},
 	})
 
 	dptAll := func(l *loaded, fn string, lens func(main, sub int64) []int64) []Inst {
